@@ -14,6 +14,7 @@ SEEDED = os.path.join(VERIF, "seeded")
 SLOTS = "/tmp/hx"
 ENV = dict(os.environ, CARGO_NET_OFFLINE="true", CARGO_TERM_COLOR="never")
 
+TAG = ""
 NEIGH = {
  "C01": ["C01","C08","C10","C19"], "C02": ["C02","C08","C04"], "C03": ["C03","C20","C01"], "C04": ["C04","C01","C02","C19"],
  "C05": ["C05","C07","C06","C11"], "C06": ["C06","C20","C05"], "C07": ["C07","C05","C12"], "C08": ["C08","C01","C02"],
@@ -108,15 +109,19 @@ def main():
     cmd = sys.argv[1]
     os.makedirs(SEEDED, exist_ok=True)
     if cmd == "intake":
+        global TAG
         jobs = []
-        for base in sys.argv[2:]:
+        for a in sys.argv[2:]:
+            if a.startswith("--tag="):
+                TAG = a.split("=")[1] + "-"
+        for base in [a for a in sys.argv[2:] if not a.startswith("--")]:
             for sub in sorted(glob.glob(os.path.join(base, "[0-9]*"))):
                 if os.path.exists(os.path.join(sub, "patch.diff")) and os.path.exists(os.path.join(sub, "meta.json")):
                     jobs.append(sub)
         def work(args):
             i, sub = args
             meta = json.load(open(os.path.join(sub, "meta.json")))
-            sid = "%s-%s" % (meta["property"], os.path.basename(sub))
+            sid = "%s-%s%s" % (meta["property"], TAG, os.path.basename(sub))
             if os.path.exists(os.path.join(SEEDED, sid, "meta.json")):
                 return sid, "exists"
             r = confirm(sub, i % 4)
@@ -142,6 +147,7 @@ def main():
         ids = [a for a in sys.argv[2:] if not a.startswith("--")]
         allp = "--all-props" in sys.argv
         only = [a.split("=")[1].split(",") for a in sys.argv if a.startswith("--props=")]
+        extra = [a.split("=")[1].split(",") for a in sys.argv if a.startswith("--extra=")]
         if not ids:
             ids = sorted(os.listdir(SEEDED))
         by_slot = {k: [j for n, j in enumerate(ids) if n % 4 == k] for k in range(4)}
@@ -149,9 +155,14 @@ def main():
             out = []
             for sid in by_slot[k]:
                 props = only[0] if only else (["C%02d" % i for i in range(1, 21)] if allp else None)
+                if props is None and extra:
+                    own = json.load(open(os.path.join(SEEDED, sid, "meta.json")))["property"]
+                    props = NEIGH[own] + [p for p in extra[0] if p not in NEIGH[own]]
                 r = evaluate(sid, k, props, tier)
                 mp = os.path.join(SEEDED, sid, "meta.json")
                 meta = json.load(open(mp))
+                if "--fresh" in sys.argv:
+                    meta["detection"] = {}
                 meta.setdefault("detection", {})
                 if "error" in r:
                     meta["detection"]["error"] = r["error"]
